@@ -201,6 +201,22 @@ func c11(r *core.Run) {
 				}
 			})
 		}
+		// helpers of the store called from the scan that read the live handle themselves
+		for _, f := range core.Nest(fn) {
+			core.InstrsOf(f, func(in ssa.Instruction) {
+				c := core.CallOf(in)
+				if c == nil {
+					return
+				}
+				callee := core.StaticCallee(c)
+				if callee == nil || !p.IsProdFunc(callee) || callee.Pkg != fn.Pkg || callee.Parent() != nil {
+					return
+				}
+				if via := liveAccess(p, callee, map[*ssa.Function]bool{}); via != "" {
+					accs = append(accs, access{in, nil, "read of the live database through " + callee.Name() + " (" + via + ")"})
+				}
+			})
+		}
 		if len(accs) == 0 {
 			continue
 		}
@@ -208,7 +224,7 @@ func c11(r *core.Run) {
 		roots := map[string]bool{}
 		for _, a := range accs {
 			if a.recv == nil {
-				r.Fail("C11.SNAP", fnm+"#"+a.kind, a.in.Pos(), "an alert-producing scan walks an index on the live database handle instead of its snapshot")
+				r.Fail("C11.SNAP", fnm+"#"+a.kind, a.in.Pos(), "an alert-producing scan reads the live database handle instead of its snapshot ("+a.kind+"): an index entry of one version can be paired with the record of another")
 				continue
 			}
 			rv := core.Resolve(a.recv)
@@ -310,6 +326,27 @@ func c11(r *core.Run) {
 				}
 				r.Check(states[in] == lkW, "C11.LOCK", core.FuncName(fn)+"#durable-write-under-lock", in.Pos(), "durable write with the write lock held", "read-modify-write of the store without the writer mutex: two writers can interleave between Get and Commit")
 			})
+			// ... and so is the read half of a read-modify-write: in a method that commits, every read of the
+			// database (old record lookup, iterators) is under the same write lock
+			commits := false
+			core.InstrsOf(fn, func(in ssa.Instruction) {
+				if c := core.CallOf(in); c != nil && pebbleDurable[core.CalleeName(c)] {
+					commits = true
+				}
+			})
+			if commits {
+				core.InstrsOf(fn, func(in ssa.Instruction) {
+					c := core.CallOf(in)
+					if c == nil {
+						return
+					}
+					name := core.CalleeName(c)
+					if !((strings.HasSuffix(name, ").Get") || strings.HasSuffix(name, ".NewIter")) && strings.Contains(name, pebblePath+".DB)")) && !strings.Contains(name, "createSafeIterator") {
+						return
+					}
+					r.Check(states[in] == lkW, "C11.LOCK", core.FuncName(fn)+"#rmw-read-under-write-lock", in.Pos(), "the lookup a mutation bases its index maintenance on happens with the write lock held", "a mutating method reads the database before taking the writer mutex: another writer can commit between this read and the commit, and the stale-entry cleanup is computed from a superseded record")
+				})
+			}
 			// closures of this method that touch guarded fields
 			for _, cl := range core.Nest(fn)[1:] {
 				core.InstrsOf(cl, func(in ssa.Instruction) {
@@ -412,4 +449,38 @@ func c11(r *core.Run) {
 		}
 	}
 	r.Floor("C11.NOESCAPE", "returns of signature pointers from the JSON store", nGet, 3)
+}
+
+
+// liveAccess reports (as a short description, "" if none) whether f or a store function it calls reads
+// the database through the live *pebble.DB handle (Get / NewIter / the iterator helper).
+func liveAccess(p *core.Program, f *ssa.Function, seen map[*ssa.Function]bool) string {
+	if seen[f] {
+		return ""
+	}
+	seen[f] = true
+	out := ""
+	for _, g := range core.Nest(f) {
+		core.InstrsOf(g, func(in ssa.Instruction) {
+			c := core.CallOf(in)
+			if c == nil || out != "" {
+				return
+			}
+			name := core.CalleeName(c)
+			switch {
+			case (strings.HasSuffix(name, ").Get") || strings.HasSuffix(name, ".NewIter")) && strings.Contains(name, pebblePath+".DB)"):
+				out = "DB" + name[strings.LastIndex(name, ")"):] + " in " + f.Name()
+				return
+			case strings.Contains(name, "createSafeIterator"):
+				out = "createSafeIterator in " + f.Name()
+				return
+			}
+			if callee := core.StaticCallee(c); callee != nil && p.IsProdFunc(callee) && callee.Pkg == f.Pkg && callee.Parent() == nil {
+				if via := liveAccess(p, callee, seen); via != "" {
+					out = via
+				}
+			}
+		})
+	}
+	return out
 }
